@@ -125,24 +125,25 @@ PENDING = {}
 
 # what later rounds added to the explored space (appended to the claim text)
 ADDED = {
-    "C01": "Also: keyword-only-default-only functions, several helpers sharing one qualified name (closures of one factory) used by one function, the same attribute name missing on two objects. The first evaluation after an edit made through call_batch / map_over_range.",
+    "C01": "Also: keyword-only-default-only functions, several helpers sharing one qualified name (closures of one factory) used by one function, the same attribute name missing on two objects. The first evaluation after an edit made through call_batch / map_over_range. String constants inside generator expressions.",
     "C02": "The shared key override contains '#'. An exception class that keeps a field in .message; the replayed text is judged before the appended stack trace.",
     "C03": "Also: several module-level lambdas / closures of one factory used by ONE function; a modifier clone and the original asked for their version in both orders after an in-process change. A None placeholder assigned by a later module-level statement.",
     "C04": "Also: a per-call modifier applied after context arguments. A call-time keyword overriding a keyword partial; context arguments attached over others (all ordered pairs).",
-    "C05": "Also: metadata written for calls that have no memento (kept under the call, attached to a later memoization, dropped by forget_call / forget_function). Canonical states include every scalar attribute of the backend objects. Equal results memoized again (the memento written last is served); callers keep superseded arrays.",
+    "C05": "Also: metadata written for calls that have no memento (kept under the call, attached to a later memoization, dropped by forget_call / forget_function). Canonical states include every scalar attribute of the backend objects. Equal results memoized again (the memento written last is served); callers keep superseded arrays. A metadata key containing ':'.",
     "C06": "L3: all histories to length 4 (thorough 5) over results that measure differently the second time (160-row frames measured from a row sample with the generator seeded per history, lists / dicts the caller extends): usage == what the resident entries were credited with, within [0, budget], zero once everything is forgotten. Callers keep superseded arrays until they drop them; a cache that does not take the configured budget is a violation.",
     "C07": "Also: the store re-opened under another spelling of its path (through a symbolic link) in the alphabet; partitions written by two calls under one key override with reads in between to depth 4 (thorough 6). Results that serialize differently each time; a memento link torn by a failed rewrite, then the call forgotten.",
     "C10": "Re-versioned callee: all histories to length 4 (thorough 5) over {call mid, call top, batch top, call root, new version of leaf, new backend object} on root -> top -> {mid (pinned) -> leaf, leaf}; dependency sets of every stored call compared with a computed-once-served-afterwards model, read from the running backend and from a new backend object. The root call made in a worker thread; results (not mementos) of pre-memoized calls lost.",
     "C11": "Also: the type tag of every emitted argument node compared with a reference encoder of the Python value, date / timestamp texts; all histories to length 4 (thorough 5) of calls, edit + reload, new backend object with every stored document decoded after each event (current versions decode to the live functions, vanished ones to external stubs, decode -> encode is the identity). Functions in nested classes; dependency sets compared as references; external flags.",
     "C12": "Also: histories run with the store listed before anything is read, and with the caller defined behind a plain functools.wraps decorator. A process that lists the store without having imported the program; names and listings compared strictly after a re-cluster step.",
-    "C13": "Also: a function declared auto_dependencies=False and its clones, clones asked before / after the originals, the same attribute missing on two owners, three-component dotted names; a helper re-defined until its function object sits at the address of a dead helper (version asked after every re-definition). Clones made and kept without being asked; a late symbol defined as None; a second search started after versions have been asked once.",
-    "C14": "Also: the caller repeating the hidden call its static callee just made (callee computed / served from the store). Re-pointing under a caller with a declared version and through a plain helper; a superseded definition reached by a hidden call.",
+    "C13": "Also: a function declared auto_dependencies=False and its clones, clones asked before / after the originals, the same attribute missing on two owners, three-component dotted names; a helper re-defined until its function object sits at the address of a dead helper (version asked after every re-definition). Clones made and kept without being asked; a late symbol defined as None; a second search started after versions have been asked once. Re-binding between two functions with declared versions, closures of one factory re-bound, an alias of a builtin re-defined as a memento function; the function with declared dependencies is asked last.",
+    "C14": "Also: the caller repeating the hidden call its static callee just made (callee computed / served from the store). Re-pointing under a caller with a declared version and through a plain helper; a superseded definition reached by a hidden call. Hidden calls through call_batch(raise_first_exception=False); plain helpers sharing their bare name.",
     "C15": "Also: long batches with one failing element in the raising mode (what was evaluated is the prefix up to the failure or everything, and is memoized), ranges given as one-shot iterables. Elements whose text equals another element.",
-    "C16": "Also: all ordered pairs of 10 look-alike context dictionaries (1 / True / 1.0 / '1' / 0 / False / [1] / [True]) attached one after the other to one function object: call, call after a call under the first, forget through the carrying object. A prevented call to a function with a declared version (single and batch nested calls).",
-    "C17": "Also: keys holding equal content (two keys of one level, the same keys at several levels, two None values). Keys listed before the parent is declared.",
+    "C16": "Also: all ordered pairs of 10 look-alike context dictionaries (1 / True / 1.0 / '1' / 0 / False / [1] / [True]) attached one after the other to one function object: call, call after a call under the first, forget through the carrying object. A prevented call to a function with a declared version (single and batch nested calls). The context under which a stored record lists its invocations (read through a new backend object).",
+    "C17": "Also: keys holding equal content (two keys of one level, the same keys at several levels, two None values). Keys listed before the parent is declared. A key assigned twice on disk staging; a partition key containing '#' under a key override.",
     "C18": "Also: storage / runner type names registered 1..3 times with newer classes, environments built from a configuration, through create() and from an earlier dump. Fractional memory_cache_mb; configuration files referring to each other relatively over two levels.",
     "C19": "Canonical states include every scalar attribute of the backend objects (a history that leaves the store untouched but changes such an attribute is expanded, not merged). A copied store opened read-only.",
     "C09": "Also: One call under two spellings (direct / keyword partial); two partition results stored at the same time.",
+    "C08": "Also: Operations refused with EACCES (PermissionError).",
 }
 
 
